@@ -437,6 +437,34 @@ impl<'a, 'b> ValGen<'a, 'b> {
         }
     }
 
+    /// A tuple / array / map made mostly of custom values (for flavours that have them).
+    pub fn custom_rich(&mut self) -> Node {
+        let customs = self.fl.custom_kinds();
+        if customs.is_empty() {
+            return self.value(3);
+        }
+        match self.g.weighted(&[3, 2, 1]) {
+            0 => {
+                let n = 1 + self.g.index(5);
+                Node::Tuple((0..n).map(|_| {
+                    let k = *self.g.pick(customs);
+                    gen_custom(self.g, self.fl, k)
+                }).collect())
+            }
+            1 => {
+                let k = *self.g.pick(customs);
+                let n = self.g.index(5);
+                Node::Array { ek: k, elems: (0..n).map(|_| gen_custom(self.g, self.fl, k)).collect() }
+            }
+            _ => {
+                let kk = *self.g.pick(customs);
+                let vk = *self.g.pick(customs);
+                let n = self.g.index(3);
+                Node::Map { kk, vk, entries: (0..n).map(|_| (gen_custom(self.g, self.fl, kk), gen_custom(self.g, self.fl, vk))).collect() }
+            }
+        }
+    }
+
     /// A value with a collection / string whose size sits at a LEB128 byte boundary.
     pub fn big(&mut self) -> Node {
         let n = {
@@ -577,7 +605,15 @@ pub fn mutate_site(g: &mut Gen, fl: Flavour, b: &mut Vec<u8>, sites: &[Site]) ->
             avail.push(v);
         }
     }
-    let class = &avail[g.index(avail.len())];
+    // weights of the classes above, restricted to the available ones
+    const WEIGHTS: [u32; 8] = [6, 4, 3, 3, 6, 4, 1, 1];
+    let mut w: Vec<u32> = Vec::new();
+    for (ci, c) in classes.iter().enumerate() {
+        if sites.iter().any(|s| c(&s.what)) {
+            w.push(WEIGHTS[ci]);
+        }
+    }
+    let class = &avail[g.weighted(&w)];
     let s = sites[class[g.index(class.len())]];
     match s.what {
         SiteKind::Prefix => {
